@@ -245,12 +245,20 @@ package protocol
 //@ check bounds alloc
 //@ alloc-limit len(buf) + 4096
 //@ ensures err == nil ==> result != nil && len(buf) >= 97 + 16 * len(result.SeenBy)
+//@ ensures len(buf) >= 97 && len(buf) >= 97 + 16 * buf[96] ==> err == nil && result != nil && result.CommandID == be64(buf, 16) && result.Timestamp == be64(buf, 24) && len(result.SeenBy) == buf[96]
+//@ ensures err == nil ==> forall i in 0..16: result.OriginAgent[i] == buf[i]
+//@ ensures err == nil ==> forall i in 0..64: result.Signature[i] == buf[32 + i]
+//@ ensures err == nil ==> forall k in 0..len(result.SeenBy): forall j in 0..16: result.SeenBy[k][j] == buf[97 + 16 * k + j]
 
 //@ func DecodeWakeCommand
 //@ prop C05
 //@ check bounds alloc
 //@ alloc-limit len(buf) + 4096
 //@ ensures err == nil ==> result != nil && len(buf) >= 97 + 16 * len(result.SeenBy)
+//@ ensures len(buf) >= 97 && len(buf) >= 97 + 16 * buf[96] ==> err == nil && result != nil && result.CommandID == be64(buf, 16) && result.Timestamp == be64(buf, 24) && len(result.SeenBy) == buf[96]
+//@ ensures err == nil ==> forall i in 0..16: result.OriginAgent[i] == buf[i]
+//@ ensures err == nil ==> forall i in 0..64: result.Signature[i] == buf[32 + i]
+//@ ensures err == nil ==> forall k in 0..len(result.SeenBy): forall j in 0..16: result.SeenBy[k][j] == buf[97 + 16 * k + j]
 
 //@ func DecodeQueuedState
 //@ prop C05
@@ -370,9 +378,10 @@ package protocol
 //@ alloc-limit 4080
 //@ requires 0 <= r.offset && r.offset <= len(r.buf)
 //@ modifies r.offset, r.err
-//@ loop 0 invariant 0 <= i && i <= count && r.err == nil && 0 <= r.offset && r.offset == old(r.offset) + 1 + 16 * i && r.offset <= len(r.buf) && len(ids) == count
+//@ loop 0 invariant 0 <= i && i <= count && r.err == nil && 0 <= r.offset && r.offset == old(r.offset) + 1 + 16 * i && r.offset <= len(r.buf) && len(ids) == count && count == r.buf[old(r.offset)] && (forall k in 0..i: forall j in 0..16: ids[k][j] == r.buf[old(r.offset) + 1 + 16 * k + j])
 //@ ensures 0 <= r.offset && r.offset <= len(r.buf)
 //@ ensures old(r.err) == nil && old(r.offset) + 1 <= len(r.buf) && old(r.offset) + 1 + 16 * r.buf[old(r.offset)] <= len(r.buf) ==> r.err == nil && len(result) == r.buf[old(r.offset)] && r.offset == old(r.offset) + 1 + 16 * len(result)
+//@ ensures r.err == nil && old(r.err) == nil ==> forall k in 0..len(result): forall j in 0..16: result[k][j] == r.buf[old(r.offset) + 1 + 16 * k + j]
 //@ ensures !(old(r.err) == nil && old(r.offset) + 1 <= len(r.buf) && old(r.offset) + 1 + 16 * r.buf[old(r.offset)] <= len(r.buf)) ==> r.err != nil && len(result) == 0
 
 //@ func addressLength
@@ -459,8 +468,9 @@ package protocol
 //@ check bounds
 //@ requires 0 <= w.offset && w.offset + 1 + 16 * len(ids) <= len(w.buf) && len(ids) <= 255
 //@ modifies w.offset, contents(w.buf)
-//@ loop 0 invariant -1 <= rangeindex && rangeindex < len(ids) && w.offset == old(w.offset) + 1 + 16 * (rangeindex + 1) && w.buf[old(w.offset)] == len(ids) && forall i in 0..len(w.buf): (i < old(w.offset) || i >= old(w.offset) + 1 + 16 * len(ids)) ==> w.buf[i] == old(w.buf[i])
+//@ loop 0 invariant -1 <= rangeindex && rangeindex < len(ids) && w.offset == old(w.offset) + 1 + 16 * (rangeindex + 1) && w.buf[old(w.offset)] == len(ids) && (forall i in 0..len(w.buf): (i < old(w.offset) || i >= old(w.offset) + 1 + 16 * len(ids)) ==> w.buf[i] == old(w.buf[i])) && (forall k in 0..rangeindex+1: forall j in 0..16: w.buf[old(w.offset) + 1 + 16 * k + j] == ids[k][j])
 //@ ensures w.offset == old(w.offset) + 1 + 16 * len(ids) && w.buf[old(w.offset)] == len(ids)
+//@ ensures forall k in 0..len(ids): forall j in 0..16: w.buf[old(w.offset) + 1 + 16 * k + j] == ids[k][j]
 //@ ensures forall i in 0..len(w.buf): (i < old(w.offset) || i >= old(w.offset) + 1 + 16 * len(ids)) ==> w.buf[i] == old(w.buf[i])
 
 // ---- C05: no encoder panics or writes outside its buffer (size computations are exact), given the stated wire
@@ -553,11 +563,19 @@ package protocol
 //@ prop C05
 //@ check bounds
 //@ requires len(s.SeenBy) <= 255
+//@ ensures len(result) == 97 + 16 * len(s.SeenBy) && be64(result, 16) == s.CommandID && be64(result, 24) == s.Timestamp && result[96] == len(s.SeenBy)
+//@ ensures forall i in 0..16: result[i] == s.OriginAgent[i]
+//@ ensures forall i in 0..64: result[32 + i] == s.Signature[i]
+//@ ensures forall k in 0..len(s.SeenBy): forall j in 0..16: result[97 + 16 * k + j] == s.SeenBy[k][j]
 
 //@ func (*WakeCommand).Encode
 //@ prop C05
 //@ check bounds
 //@ requires len(w.SeenBy) <= 255
+//@ ensures len(result) == 97 + 16 * len(w.SeenBy) && be64(result, 16) == w.CommandID && be64(result, 24) == w.Timestamp && result[96] == len(w.SeenBy)
+//@ ensures forall i in 0..16: result[i] == w.OriginAgent[i]
+//@ ensures forall i in 0..64: result[32 + i] == w.Signature[i]
+//@ ensures forall k in 0..len(w.SeenBy): forall j in 0..16: result[97 + 16 * k + j] == w.SeenBy[k][j]
 
 //@ func EncodeDomainPrefix
 //@ prop C05
@@ -609,3 +627,19 @@ package protocol
 //@ ensures err == nil && result.RequestID == s.RequestID && result.BoundAddrType == s.BoundAddrType && result.BoundPort == s.BoundPort && len(result.BoundAddr) == len(s.BoundAddr)
 //@ ensures forall i in 0..len(s.BoundAddr): result.BoundAddr[i] == s.BoundAddr[i]
 //@ ensures forall i in 0..32: result.EphemeralPubKey[i] == s.EphemeralPubKey[i]
+
+//@ func zzRoundTripSleepCommand
+//@ prop C05
+//@ requires s != nil && len(s.SeenBy) <= 255
+//@ ensures err == nil && result.CommandID == s.CommandID && result.Timestamp == s.Timestamp && len(result.SeenBy) == len(s.SeenBy)
+//@ ensures forall i in 0..16: result.OriginAgent[i] == s.OriginAgent[i]
+//@ ensures forall i in 0..64: result.Signature[i] == s.Signature[i]
+//@ ensures forall k in 0..len(s.SeenBy): forall j in 0..16: result.SeenBy[k][j] == s.SeenBy[k][j]
+
+//@ func zzRoundTripWakeCommand
+//@ prop C05
+//@ requires w != nil && len(w.SeenBy) <= 255
+//@ ensures err == nil && result.CommandID == w.CommandID && result.Timestamp == w.Timestamp && len(result.SeenBy) == len(w.SeenBy)
+//@ ensures forall i in 0..16: result.OriginAgent[i] == w.OriginAgent[i]
+//@ ensures forall i in 0..64: result.Signature[i] == w.Signature[i]
+//@ ensures forall k in 0..len(w.SeenBy): forall j in 0..16: result.SeenBy[k][j] == w.SeenBy[k][j]
